@@ -28,9 +28,10 @@ const (
 	relaxIllTypedParse  = "illtyped_member_parse_error"     // well-formed JSON object with a non-string jsonrpc/method answered -32700
 	relaxWsBatch        = "batch_after_long_whitespace"     // a batch preceded by >=128 bytes of white space is not recognised as a batch
 	relaxUnserDropped   = "unserialisable_result_unanswered" // a request with an id whose handler result cannot be serialised gets no response object at all
+	relaxByteString     = "string_read_as_bytes_for_slice_of_named_uint8" // a JSON string given for a parameter that is a slice of a uint8-based type with its own decoder is base64-decoded into raw element values (scalar_classify.go)
 )
 
-var allRelax = []string{relaxNotifUnknown, relaxNotifBadParams, relaxNilResult, relaxIllTypedParse, relaxWsBatch, relaxUnserDropped}
+var allRelax = []string{relaxNotifUnknown, relaxNotifBadParams, relaxNilResult, relaxIllTypedParse, relaxWsBatch, relaxUnserDropped, relaxByteString}
 
 // one fixed violation key per suspected defect (the driver keeps at most six distinct keys per
 // worker process, so the known ones must not multiply)
@@ -41,6 +42,7 @@ var relaxKey = map[string]string{
 	relaxIllTypedParse:  "parse_error_code_for_wellformed_request_object",
 	relaxWsBatch:        "batch_not_recognised",
 	relaxUnserDropped:   "request_with_id_gets_no_response_object",
+	relaxByteString:     "handler_called_with_elements_the_element_decoder_never_saw",
 }
 
 type callSpec struct {
@@ -340,7 +342,7 @@ func classifyEntry(v *jv) (entry, string) {
 		default:
 			e.cls = "valid/" + idCls
 		}
-		e.cls += ":" + bind.form + vShape(bind.feat)
+		e.cls += ":" + bind.form + vShape(bind.feat) + sShape(bind.feat)
 		e.feat = bind.feat
 		for _, im := range idModes {
 			if bind.ok {
@@ -360,6 +362,19 @@ func classifyEntry(v *jv) (entry, string) {
 		}
 		if bind.bad && idCls == "notif" {
 			e.alts = append(e.alts, alt{respond: true, ids: idNullOnly, errCodes: []int{codeBadParams}, relax: relaxNotifBadParams})
+		}
+		if bind.bad && !bind.ok && bind.feat["s_string_for_uint8_kind_slice"] {
+			// recogniser of one suspected defect (scalar_classify.go, sByteStringReading): the handler
+			// is called with the bytes of the base64 reading of the string as elements
+			if lb := bindParamsX(m, pv, hasParams, true); lb.ok {
+				for _, im := range idModes {
+					a := alt{respond: im.respond, call: &callSpec{m: m, args: lb.args}, relax: relaxByteString}
+					if im.respond {
+						a.ids = []*jv{im.id}
+					}
+					e.alts = append(e.alts, a)
+				}
+			}
 		}
 		if m.ret == retUnser && bind.ok {
 			// The handler runs once like any other. Its result cannot be put into a response, and the
@@ -404,6 +419,9 @@ const (
 )
 
 func defaultOf(t ptype) *jv {
+	if isS(t) {
+		return sDefault(t)
+	}
 	if isV(t) {
 		return vDefault(t)
 	}
@@ -485,7 +503,11 @@ func typeCheck(t ptype, v *jv) (tcheck, *jv) {
 	}
 }
 
-func bindParams(m *mspec, pv *jv, has bool) bindResult {
+func bindParams(m *mspec, pv *jv, has bool) bindResult { return bindParamsX(m, pv, has, false) }
+
+// bindParamsX: byteStrings = read a JSON string given for a slice of a uint8-based named type the way
+// the suspected defect relaxByteString does (only used to recognise that defect)
+func bindParamsX(m *mspec, pv *jv, has bool, byteStrings bool) bindResult {
 	required := 0
 	for _, p := range m.params {
 		if !p.optional {
@@ -508,6 +530,9 @@ func bindParams(m *mspec, pv *jv, has bool) bindResult {
 	args := defaults()
 	either := false
 	feat := map[string]bool{}
+	if byteStrings {
+		feat[sByteStringsMark] = true
+	}
 	und := ""
 	switch pv.k {
 	case jArr:
